@@ -84,6 +84,9 @@ func checkC08(c *Check) {
 			if strings.HasPrefix(name, "(*bytes.Buffer).Write") || strings.HasPrefix(name, "(*strings.Builder).Write") {
 				return // documented to always return a nil error
 			}
+			if strings.HasPrefix(name, "fmt.Fprint") || strings.HasPrefix(name, "fmt.Print") || strings.HasPrefix(name, "(*log.Logger).") || name == "(io.Writer).Write" || strings.HasPrefix(name, "(*os.File).Write") || strings.HasPrefix(name, "io.WriteString") {
+				return // diagnostics output: its failure is not a failed registration
+			}
 			key := p.FuncKey(fn) + ":err-of:" + name
 			pos := p.Pos(call.Pos())
 			var errV ssa.Value
